@@ -338,7 +338,10 @@ impl<CS: BbsCiphersuite> PoKSignature<BBSplus<CS>> {
     where
         CS::Expander: for<'a> ExpandMsg<'a>,
     {
-        let proof = self.to_bbsplus_proof();
+        // a value decoded from JSON may carry the variant of another scheme
+        let Self::BBSplus(proof) = self else {
+            return Err(Error::InvalidProofOfKnowledgeSignature);
+        };
         let disclosed_messages = disclosed_messages.unwrap_or(&[]);
         let mut disclosed_indexes = disclosed_indexes.unwrap_or(&[]).to_vec();
         disclosed_indexes.sort();
@@ -405,7 +408,10 @@ impl<CS: BbsCiphersuite> PoKSignature<BBSplus<CS>> {
     where
         CS::Expander: for<'a> ExpandMsg<'a>,
     {
-        let proof = self.to_bbsplus_proof();
+        // a value decoded from JSON may carry the variant of another scheme
+        let Self::BBSplus(proof) = self else {
+            return Err(Error::InvalidProofOfKnowledgeSignature);
+        };
         let L = L.unwrap_or(0);
         let disclosed_messages = disclosed_messages.unwrap_or(&[]);
         let disclosed_committed_messages = disclosed_committed_messages.unwrap_or(&[]);
